@@ -26,6 +26,7 @@ type Node struct {
 	Min    uint32
 	Group  int
 	Cap    string
+	Opq    bool // trusted.overlay.opaque = "y"
 }
 
 func (n Node) fields() []string {
@@ -45,7 +46,15 @@ func (n Node) fields() []string {
 		maj, min = n.Maj, n.Min
 	}
 	return []string{hx(n.Path), string(n.Kind), strconv.Itoa(int(n.Perm)), strconv.Itoa(n.Uid), strconv.Itoa(n.Gid), mt,
-		data, target, strconv.Itoa(int(maj)), strconv.Itoa(int(min)), strconv.Itoa(n.Group), hx(n.Cap)}
+		data, target, strconv.Itoa(int(maj)), strconv.Itoa(int(min)), strconv.Itoa(n.Group), capCol(n)}
+}
+
+func capCol(n Node) string {
+	c := hx(n.Cap)
+	if n.Opq {
+		c += "~o"
+	}
+	return c
 }
 
 func renderTree(ns []Node) string {
